@@ -500,7 +500,17 @@ fn expand_one_env(sh: &Shell, token: &str) -> Option<(String, String)> {
 }
 
 fn need_expand_brace(line: &str) -> bool {
+    // a word with a quoted part or a command substitution in it
+    // (`A='{a,b}'`, `$(printf '{a,b}')`) is left alone: the braces there are
+    // not brace expansion syntax
+    if has_quoted_part(line) {
+        return false;
+    }
     libs::re::re_contains(line, r#"\{[^ "']*,[^ "']*,?[^ "']*\}"#)
+}
+
+fn has_quoted_part(word: &str) -> bool {
+    word.contains('\'') || word.contains('"') || word.contains('`') || word.contains("$(")
 }
 
 fn brace_getitem(s: &str, depth: i32) -> (Vec<String>, String) {
@@ -641,7 +651,7 @@ fn expand_brace_range(tokens: &mut types::Tokens) {
     let mut idx: usize = 0;
     let mut buff: Vec<(usize, Vec<String>)> = Vec::new();
     for (sep, token) in tokens.iter() {
-        if !sep.is_empty() || !re.is_match(token) {
+        if !sep.is_empty() || has_quoted_part(token) || !re.is_match(token) {
             idx += 1;
             continue;
         }
@@ -966,8 +976,21 @@ fn do_command_substitution_for_dot(sh: &mut Shell, tokens: &mut types::Tokens) {
                 let _head = cap[1].to_string();
                 let _cmd = cap[2].to_string();
                 let _tail = cap[3].to_string();
-                let _output = run_command_substitution(sh, &_cmd);
                 _item.push_str(&_head);
+                if sep.is_empty()
+                    && libs::re::re_contains(token, r"^[a-zA-Z_][a-zA-Z0-9_]*=")
+                    && _item.matches('\'').count() % 2 == 1
+                {
+                    // inside the single-quoted part of an assignment word
+                    // (`A='`x`'`, which keeps its quotes until the value
+                    // is assigned): not a substitution
+                    _item.push('`');
+                    _item.push_str(&_cmd);
+                    _item.push('`');
+                    _rest = _tail;
+                    continue;
+                }
+                let _output = run_command_substitution(sh, &_cmd);
                 _item.push_str(&_output);
                 _rest = _tail;
             }
